@@ -40,7 +40,9 @@ func init() {
 func (p *c19) NumCases(tier string, seed int64) int { return tierN(tier, 2500, 136000) }
 
 var c19Ids = yang.S("module", "ids", yang.S("namespace", "urn:verif:ids"), yang.S("prefix", "ids"), yang.S("identity", "base-id"), yang.S("identity", "near", yang.S("base", "base-id")))
-var c19Ids2 = yang.S("module", "ids2", yang.S("namespace", "urn:verif:ids2"), yang.S("prefix", "ids2"), yang.S("import", "ids", yang.S("prefix", "i")), yang.S("identity", "far", yang.S("base", "i:near")))
+var c19Ids2 = yang.S("module", "ids2", yang.S("namespace", "urn:verif:ids2"), yang.S("prefix", "ids2"), yang.S("import", "ids", yang.S("prefix", "i")), yang.S("identity", "far", yang.S("base", "i:near")),
+	// (an identity named like one of the other module: the two are told apart by their modules)
+	yang.S("identity", "near", yang.S("base", "i:base-id")))
 
 type c19Case struct {
 	mod   *yang.Stmt
